@@ -201,6 +201,8 @@ Proof.
   simpl. rewrite h_values_insert. simpl. inversion H; subst. rewrite IH by assumption. reflexivity.
 Qed.
 
+Local Open Scope string_scope.
+
 (** * the loops of rewriteRequest *)
 
 Lemma h_has_cons k k' vs h : h_has k ((k', vs) :: h) = String.eqb k k' || h_has k h.
@@ -311,7 +313,7 @@ Qed.
 
 Lemma nodup_rewrite_request q pl th : NoDup (keys (snd (rewrite_request q pl th))).
 Proof.
-  unfold rewrite_request. simpl. apply nodup_forwarded_block. apply nodup_add_cookies.
+  unfold rewrite_request. cbv zeta. cbn [snd]. apply nodup_forwarded_block. apply nodup_add_cookies.
   assert (H : NoDup (keys (set_pipeline_headers (upstream_headers pl)
              (h_del_all ["X-Forwarded-Method"; "X-Forwarded-Uri"; "X-Forwarded-Path"]
                 (strip_forwarding (remove_hop_by_hop (in_headers q))))))).
